@@ -1,10 +1,10 @@
-SPECIFICATION FairSpec
+SPECIFICATION Spec
 CONSTANTS
-  Aborters = {}
-  NT = 2
-  Rounds = 1
+  Aborters = {1, 3}
+  NT = 3
+  Rounds = 2
   Variant = "code"
 INVARIANT Mutex NoLostHandOver
-PROPERTY EventuallyAll
+
 VIEW view
 CHECK_DEADLOCK FALSE
